@@ -410,6 +410,9 @@ def gen_uri(r, idx):
     rest = r.choice(['//h:1', '//h:1,g:2', '//zk1:2181/path#name', '//', '', '/x', 'h:1', '//[::1]:80/', '//h:1?q#f', '//[bad'])
     return {'kind': 'other', 'uri': s + ':' + rest}
   # mutated / malformed
+  if r.random() < 0.3:           # int() on odd port text
+    ports = [''.join(r.choice(' _+-00112233456789\x0b\x0c') for _ in range(r.choice([0, 1, 2, 3, 4, 6]))) for _ in range(r.choice([1, 1, 2]))]
+    return {'kind': 'raw', 'uri': 'tcp://' + ','.join('h%d:%s' % (i, p) for i, p in enumerate(ports))}
   base = r.choice(['tcp://a:1', 'tcp://host.example.com:8080,10.0.0.2:9090', 'zk://zk1:2181,zk2:2181/svc/path#http',
                    'tcp://a:1,b:2,c:3', 'zk://z/p', 'tcp://[::1]:80', 'http://a:1', 'tcp://h:65535'])
   alpha = ',,::://##??[]@ \t\n\r\x0b\x0c\x1c\x00_+-0123456789abctpzkTCPZK.%' + 'é١\u00a0\u2100'
